@@ -299,8 +299,10 @@ class Linear(CodeGenMixin, torch.nn.Module):
             assert self.internal_weights, "Weights must be provided when internal_weights = False"
             weight = self.weight
         batchshape = weight.shape[:-1]
-        offset = sum(prod(ins.path_shape) for ins in self.instructions[:instruction])
         ins = self.instructions[instruction]
+        if ins.i_in == -1:
+            raise ValueError(f"Instruction {instruction} is a bias, it has no weights.")
+        offset = sum(prod(ins.path_shape) for ins in self.instructions[:instruction] if ins.i_in != -1)
         return weight.narrow(-1, offset, prod(ins.path_shape)).view(batchshape + ins.path_shape)
 
     def weight_views(self, weight: Optional[torch.Tensor] = None, yield_instruction: bool = False):
@@ -325,6 +327,9 @@ class Linear(CodeGenMixin, torch.nn.Module):
         batchshape = weight.shape[:-1]
         offset = 0
         for ins_i, ins in enumerate(self.instructions):
+            if ins.i_in == -1:
+                # bias instructions carry no weights
+                continue
             flatsize = prod(ins.path_shape)
             this_weight = weight.narrow(-1, offset, flatsize).view(batchshape + ins.path_shape)
             offset += flatsize
